@@ -114,6 +114,7 @@ type Eval struct {
 	safety   []string // props to tag safety obligations with (nil: none)
 	blocking []string // props to tag no-mutex-held-while-blocking obligations with
 	atMatched map[*AtClause]bool // at-clauses that matched some call site
+	iterRefs  map[string]bool      // references obtained by ranging over a map keyed by references
 	muTags   map[string]int
 	entry    *State
 	trace    bool
